@@ -15,11 +15,14 @@
 //!   i<v>      `StoredValue::new(v)`         s<v>  `RwSignal::new(v)`
 //!   p<t>.<v>  `provide_context(Ctx_t(v))`   u<t>  `use_context::<Ctx_t>()` -> event U<t>=v|-
 //!   t<t>      `take_context::<Ctx_t>()` -> event T<t>=v|-
+//!   l<t>      `with_context::<Ctx_t, _>(|c| c.0)` -> event U<t>=v|-      b<t>  `expect_context::<Ctx_t>()` (the
+//!             panic of a missing context is caught) -> event U<t>=v|-
+//!   d<t>.<k>  `update_context::<Ctx_t, _>(|c| { c.0 += k; c.0 })` -> event U<t>=<new value>|-
 //!   e<b>      `Effect::new(body b)`         m<b>  `Memo::new(body b)`       o  `Owner::new()`
 //!   E<b>      `Effect::new_sync(body b)`    I<b>  `Effect::new_isomorphic(body b)`
 //!   w<b>.<h>  `Effect::watch(body b, handler body h, false)`   W<b>.<h>  the same with `immediate = true`
 //!   y<b>.<h>  `Effect::watch_sync(body b, handler body h, false)`   Y<b>.<h>  with `immediate = true`
-//!             (handler bodies: only r/c/i/s/u tokens are executed; event H<e> when the handler starts;
+//!             (handler bodies: only r/c/i/s/u/l/b tokens are executed; event H<e> when the handler starts;
 //!             what the handler creates belongs to the effect's current run — F-C08-2, repaired)
 //!   v<b>      `RenderEffect::new(body b)` (handle retained; `dispose e <k>` drops it)
 //!   a<b>      `AsyncDerived::new(move || { body b; async move { sum } })` (future ready at once)
@@ -68,6 +71,7 @@
 //! An `Owner` captured by a scoped task's future stays alive until that future is dropped (`pins`): the
 //! release of such a scope is booked when its last holder goes.
 use hx_common::*;
+use reactive_graph::owner::{expect_context, update_context, with_context};
 use reactive_graph::{
     computed::{ArcMemo, AsyncDerived, Memo, ScopedFuture},
     effect::{Effect, ImmediateEffect, RenderEffect},
@@ -101,6 +105,9 @@ enum BOp {
     Provide(usize, i64),
     Use(usize),
     Take(usize),
+    WithCtx(usize),
+    Expect(usize),
+    Update(usize, i64),
     Effect(usize),
     Memo(usize),
     NewOwner,
@@ -141,6 +148,12 @@ fn parse_tok(t: &str, max_body: usize) -> Option<BOp> {
         }
         "u" => BOp::Use(ty(rest)?),
         "t" => BOp::Take(ty(rest)?),
+        "l" => BOp::WithCtx(ty(rest)?),
+        "b" => BOp::Expect(ty(rest)?),
+        "d" => {
+            let (a, b) = rest.split_once('.')?;
+            BOp::Update(ty(a)?, num(b).filter(|v| *v < 10)? as i64)
+        }
         "e" => BOp::Effect(num(rest).filter(|b| (*b as usize) < max_body)? as usize),
         "m" => BOp::Memo(num(rest).filter(|b| (*b as usize) < max_body)? as usize),
         "E" => BOp::EffectSync(num(rest).filter(|b| (*b as usize) < max_body)? as usize),
@@ -827,7 +840,10 @@ fn run_handler(eid: usize, hb: usize) {
     let body = w(|w| w.bodies[hb].clone());
     let mut sum = 0;
     for op in &body {
-        if matches!(op, BOp::Read(_) | BOp::Cleanup(_) | BOp::Item(_) | BOp::Sig(_) | BOp::Use(_)) {
+        if matches!(
+            op,
+            BOp::Read(_) | BOp::Cleanup(_) | BOp::Item(_) | BOp::Sig(_) | BOp::Use(_) | BOp::WithCtx(_) | BOp::Expect(_)
+        ) {
             exec_bop(op, &mut sum);
         }
     }
@@ -882,6 +898,38 @@ fn ctx_take(ty: usize) -> Option<i64> {
         0 => take_context::<Ctx0>().map(|c| c.0),
         1 => take_context::<Ctx1>().map(|c| c.0),
         _ => take_context::<Ctx2>().map(|c| c.0),
+    }
+}
+
+fn ctx_with(ty: usize) -> Option<i64> {
+    match ty {
+        0 => with_context::<Ctx0, _>(|c| c.0),
+        1 => with_context::<Ctx1, _>(|c| c.0),
+        _ => with_context::<Ctx2, _>(|c| c.0),
+    }
+}
+fn ctx_expect(ty: usize) -> Option<i64> {
+    catch_unwind(AssertUnwindSafe(|| match ty {
+        0 => expect_context::<Ctx0>().0,
+        1 => expect_context::<Ctx1>().0,
+        _ => expect_context::<Ctx2>().0,
+    }))
+    .ok()
+}
+fn ctx_update(ty: usize, k: i64) -> Option<i64> {
+    match ty {
+        0 => update_context::<Ctx0, _>(|c| {
+            c.0 += k;
+            c.0
+        }),
+        1 => update_context::<Ctx1, _>(|c| {
+            c.0 += k;
+            c.0
+        }),
+        _ => update_context::<Ctx2, _>(|c| {
+            c.0 += k;
+            c.0
+        }),
     }
 }
 
@@ -973,6 +1021,30 @@ fn exec_bop(op: &BOp, sum: &mut i64) {
             w(|w| {
                 if !(w.in_handler.is_some() && w.owner_missing("a context lookup")) {
                     judge_ctx(w, "use_context", ty, actual);
+                }
+            });
+            ev(Ev::U(ty, actual));
+        }
+        BOp::WithCtx(ty) | BOp::Expect(ty) => {
+            let with = matches!(op, BOp::WithCtx(_));
+            let actual = if with { ctx_with(ty) } else { ctx_expect(ty) };
+            w(|w| {
+                w.tags.insert("ctx");
+                if !(w.in_handler.is_some() && w.owner_missing("a context lookup")) {
+                    judge_ctx(w, if with { "with_context" } else { "expect_context" }, ty, actual);
+                }
+            });
+            ev(Ev::U(ty, actual));
+        }
+        BOp::Update(ty, k) => {
+            let actual = ctx_update(ty, k);
+            w(|w| {
+                w.tags.insert("ctx");
+                // the closure sees the nearest provider's value and changes it in place
+                if let Some(o) = judge_ctx(w, "update_context", ty, actual.map(|v| v - k)) {
+                    if let (Some(v), Some((sv, _))) = (actual, w.sh.owners[o].ctx[ty].as_mut()) {
+                        *sv = v;
+                    }
                 }
             });
             ev(Ev::U(ty, actual));
@@ -1765,7 +1837,13 @@ fn gen_body(rng: &mut Rng, k: usize, memo_like: bool) -> String {
                 7..=9 => format!("i{}", rng.range(1, 90)),
                 10 => format!("s{}", rng.range(1, 9)),
                 11..=12 => format!("p{}.{}", rng.below(3), rng.range(1, 9)),
-                13..=14 => format!("u{}", rng.below(3)),
+                13 => format!("u{}", rng.below(3)),
+                14 => match rng.below(4) {
+                    0 => format!("l{}", rng.below(3)),
+                    1 => format!("b{}", rng.below(3)),
+                    2 => format!("d{}.{}", rng.below(3), rng.range(1, 4)),
+                    _ => format!("u{}", rng.below(3)),
+                },
                 15..=16 if k > 0 => format!("e{}", rng.below(k)),
                 17 if k > 0 => format!("m{}", rng.below(k)),
                 18 if !memo_like => format!("g{}", rng.below(2)),
@@ -1890,10 +1968,19 @@ fn gen_random_case(rng: &mut Rng, name: String, big: bool) -> Vec<String> {
                 Some(o) => format!("child {o}"),
                 None => "x o".to_string(),
             },
-            30..=37 => match pick_o(rng) {
-                Some(o) => format!("in {o} x u{}", rng.below(3)),
-                None => format!("x u{}", rng.below(3)),
-            },
+            30..=37 => {
+                let tok = match rng.below(8) {
+                    0 => format!("l{}", rng.below(3)),
+                    1 => format!("b{}", rng.below(3)),
+                    2 => format!("d{}.{}", rng.below(3), rng.range(1, 4)),
+                    3 => format!("p{}.{}", rng.below(3), rng.range(1, 9)),
+                    _ => format!("u{}", rng.below(3)),
+                };
+                match pick_o(rng) {
+                    Some(o) => format!("in {o} x {tok}"),
+                    None => format!("x {tok}"),
+                }
+            }
             38..=39 => match pick_o(rng) {
                 Some(o) => format!("in {o} x t{}", rng.below(3)),
                 None => "idle".to_string(),
@@ -1972,6 +2059,7 @@ fn gen_matrix() -> Vec<Vec<String>> {
     ];
     let kinds = ["m", "e", "E", "I", "w", "W", "y", "Y", "v", "a", "wc", "V", "j", "J", "q", "Q"];
     let mut out = vec![];
+    out.extend(gen_ctx_matrix());
     out.extend(gen_task_matrix());
     // the recursive shape: the body writes one of its own dependencies after allocating
     for kind in ["j", "J", "q", "Q", "e", "v", "V"] {
@@ -2047,6 +2135,82 @@ fn gen_matrix() -> Vec<Vec<String>> {
                 out.push(l);
             }
         }
+    }
+    out
+}
+
+/// the context family at every nesting shape: a chain of four owners (handles o0 > o1 > o2 > o3) or of
+/// three nested effect scopes; the same type provided at every subset of the levels (the reader's own
+/// level included); every lookup API from every level; then `take_context` from one level, repeated until
+/// nothing is left (each take un-shadows the next provider outward), with lookups from every level in
+/// between, a re-provide and an `update_context`
+fn gen_ctx_matrix() -> Vec<Vec<String>> {
+    let mut out = vec![];
+    for mask in 0..16u32 {
+        for take_from in 0..4usize {
+            let mut l = vec![format!("case cx-{mask:04b}-t{take_from}")];
+            l.push("x o".into());
+            l.push("child 0".into());
+            l.push("child 1".into());
+            l.push("child 2".into());
+            // a second type provided at the root only: must never be disturbed
+            l.push("in 0 x p1.9".into());
+            for lvl in 0..4 {
+                if mask & (1 << lvl) != 0 {
+                    l.push(format!("in {lvl} x p0.{}", lvl + 1));
+                }
+            }
+            let apis = ["u", "l", "b"];
+            for lvl in (0..4).rev() {
+                l.push(format!("in {lvl} x {}0", apis[(lvl + mask as usize) % 3]));
+            }
+            for round in 0..(mask.count_ones() as usize + 1) {
+                l.push(format!("in {take_from} x t0"));
+                for lvl in (0..4).rev() {
+                    l.push(format!("in {lvl} x {}0", apis[(lvl + round) % 3]));
+                }
+                l.push(format!("in {take_from} x u1"));
+            }
+            // shadow again in the middle, change the value in place from below
+            l.push("in 1 x p0.6".into());
+            l.push("in 3 x d0.2".into());
+            l.push("in 2 x u0".into());
+            l.push("in 1 x l0".into());
+            l.push("in 0 x u0".into());
+            l.push("in 3 x t0".into());
+            l.push("in 3 x u0".into());
+            l.push("in 0 x t1".into());
+            l.push("in 3 x b1".into());
+            l.push("end".into());
+            out.push(l);
+        }
+    }
+    // the same through scopes of nested effects: e(b2) > e(b1) > e(b0), each providing / reading / taking
+    for (k, (inner, middle, outer)) in [
+        ("u0,t0,u0,l0", "p0.2,e0", "p0.1,e1"),
+        ("p0.3,t0,u0,t0,u0,t0,u0", "p0.2,e0", "p0.1,e1"),
+        ("t0,u0", "r0,e0,u0", "p0.1,e1,u0"),
+        ("d0.2,u0,t0,b0", "p0.2,r0,e0,u0", "r0,p0.1,e1,u0"),
+        ("t0,t0,u0", "p0.2,e0,u0", "p0.1,e1,u0"),
+    ]
+    .into_iter()
+    .enumerate()
+    {
+        let mut l = vec![format!("case cx-eff-{k}")];
+        l.push(format!("body {inner}"));
+        l.push(format!("body {middle}"));
+        l.push(format!("body {outer}"));
+        l.push("x o".into());
+        l.push("in 0 x s1".into());
+        l.push("in 0 x p0.7".into());
+        l.push("in 0 x e2".into());
+        l.push("idle".into());
+        l.push("in 0 x u0".into());
+        l.push("set 0 2".into());
+        l.push("idle".into());
+        l.push("in 0 x u0".into());
+        l.push("end".into());
+        out.push(l);
     }
     out
 }
